@@ -5,6 +5,7 @@
    nz_game n t g : t is a full table (every coalition of the n players known, lower == upper == g c).
    nz_SA n g     : forall disjoint A B of the n players, g A + g B <= g (A u B). *)
 From ICG Require Import Prelude Bits Table Bounds GameOps Normalize NormalizeProofs.
+From ICG Require Import FoldLemmas SASound Checks Env ShiftProofs.
 
 (* norm_formula: for every n and every full table (superadditive or not) the player loop succeeds and, just
    before the division, coalition c holds g c - sum of the ORIGINAL singleton values of its players. *)
@@ -175,4 +176,127 @@ Proof.
   exists t', info. split; [reflexivity|].
   assert (H : option_map (fun r => lo (get (fst r) 5%N)) (nz_normalize_icg 3 (nz_table_of 3 ex_fa)) = Some (-(1))) by (vm_compute; reflexivity).
   rewrite E in H. cbn [option_map fst] in H. injection H as ->. reflexivity.
+Qed.
+
+(* ------------------------------------------------------------------ *)
+(* Shift covariance of the bounds; bounds commute with normalisation   *)
+(* (theories/ShiftProofs.v, with the homogeneity of ScaleProofs.v)     *)
+(* ------------------------------------------------------------------ *)
+(* tr_add a n S   : the additive game of the weights a, sum of a i over the members i < n of S.
+   tr_rel a n t t': on every coalition S of the n players t' has the flag of t and both bounds moved by tr_add a n S.
+   tr_opt_rel     : both computers raise, or both return and the results are tr_rel-related.
+   tr_sa_computer : CRef and CCached (true), CSam r (false). *)
+Theorem C15_bounds_shift_covariant :
+  forall (a : nat -> Q) (comp : computer) (n : nat) (t t' : table),
+    tr_sa_computer comp = true -> tr_rel a n t t' ->
+    tr_opt_rel a n (compute comp n t) (compute comp n t').
+Proof. exact tr_compute_shift. Qed.
+Print Assumptions C15_bounds_shift_covariant.
+
+(* the additive game is additive over disjoint unions and vanishes on the empty coalition *)
+Theorem C15_shift_game_additive :
+  forall a n A B, disjb A B = true -> tr_add a n (N.lor A B) == tr_add a n A + tr_add a n B.
+Proof. exact tr_add_lor. Qed.
+Print Assumptions C15_shift_game_additive.
+
+(* the monotone approximation is NOT shift covariant (its closure step compares different coalitions) *)
+Theorem C15_sam_shift_refuted :
+  exists (a : nat -> Q) (n r : nat) (t t' : table),
+    tr_rel a n t t' /\ ~ tr_opt_rel a n (compute (CSam r) n t) (compute (CSam r) n t').
+Proof. exact tr_sam_shift_refuted. Qed.
+Print Assumptions C15_sam_shift_refuted.
+
+(* every positive affine change  t' == c * (t + additive game)  commutes with both superadditive computers *)
+Theorem C15_bounds_affine_covariant :
+  forall (c : Q) (a : nat -> Q) (comp : computer) (n : nat) (t t' : table),
+    0 <= c -> tr_sa_computer comp = true -> tr_aff_rel c a n t t' ->
+    tr_opt (tr_aff_rel c a n) (compute comp n t) (compute comp n t').
+Proof. exact tr_compute_affine. Qed.
+Print Assumptions C15_bounds_affine_covariant.
+
+(* tr_nz_rel n g t t': same flags, every bound b of S in t is (b - nz_ssum g n S) / nz_surplus n g in t'
+   (normalize.py's map of the game g applied to both columns of every row).
+   Bounds: the bounds of the normalised table are the normalised bounds (or both computers raise);
+   gaps: divided by the surplus (tr_gdiv: by its square for the squared l2 norm), before and after computing. *)
+Theorem C15_bounds_commute_with_normalisation :
+  forall (comp : computer) (n : nat) (g : N -> Q) (t t' : table),
+    tr_sa_computer comp = true -> 0 < nz_surplus n g -> tr_nz_rel n g t t' ->
+    tr_opt (tr_nz_rel n g) (compute comp n t) (compute comp n t')
+    /\ (forall gf, tr_optq_div (tr_gdiv gf (nz_surplus n g)) (ev_gap gf n t) (ev_gap gf n t'))
+    /\ (forall gf, tr_optq_div (tr_gdiv gf (nz_surplus n g))
+                     (match compute comp n t with Some r => ev_gap gf n r | None => None end)
+                     (match compute comp n t' with Some r => ev_gap gf n r | None => None end)).
+Proof. exact tr_bounds_commute_with_normalisation. Qed.
+Print Assumptions C15_bounds_commute_with_normalisation.
+
+(* a row of t holding the value g S is, in t', a row holding the normalised value nz_normal n g S *)
+Theorem C15_normalised_rows :
+  forall n g t t' S, 0 < nz_surplus n g -> tr_nz_rel n g t t' -> bounded n S ->
+    (lo (get t S) == g S -> lo (get t' S) == nz_normal n g S)
+    /\ (hi (get t S) == g S -> hi (get t' S) == nz_normal n g S).
+Proof. exact tr_nz_rel_normal. Qed.
+Print Assumptions C15_normalised_rows.
+
+(* knowledge form: t holds the knowledge K of g, t' the same knowledge of the normalised game; unknown rows arbitrary.
+   tr_nz_out n g r r': on every coalition of the n players same flag, L r' == (L r - nz_ssum g n S) / nz_surplus n g,
+   U r' likewise. *)
+Theorem C15_normalised_knowledge :
+  forall (comp : computer) (n : nat) (g : N -> Q) (K : N -> bool) (t t' : table),
+    tr_sa_computer comp = true -> 0 < nz_surplus n g ->
+    agrees n t K g -> agrees n t' K (nz_normal n g) ->
+    tr_opt (tr_nz_out n g) (compute comp n t) (compute comp n t').
+Proof. exact tr_normalised_knowledge. Qed.
+Print Assumptions C15_normalised_knowledge.
+
+(* Examples: 3 players, v = (0; -1; 2; 3; 1/2; 1; 4; 9) in id order, known: empty, singletons, {0,1}, grand;
+   stale numbers in the unknown rows; shifted by the weights a = (2; -1; 1/2) *)
+Definition ex_sh_a : nat -> Q := tr_vec [2; -(1); 1#2].
+Definition ex_sh_v : N -> Q := game_of [0; -(1); 2; 3; 1#2; 1; 4; 9].
+Definition ex_sh_K : N -> bool := known_in [0; 1; 2; 4; 7; 3]%N.
+Definition ex_sh_t : table := table_of 3 ex_sh_K ex_sh_v 77.
+Definition ex_sh_t' : table := tr_shift ex_sh_a 3 ex_sh_t.
+Definition ex_sh_show (o : option table) : option (list (Q * Q)) :=
+  option_map (fun r => map (fun s => (Qred (lo (get r s)), Qred (hi (get r s)))) (alln 3)) o.
+
+Example ex_shift_covariant :
+  tr_rel ex_sh_a 3 ex_sh_t ex_sh_t'
+  /\ map (fun s => Qred (tr_add ex_sh_a 3 s)) (alln 3) = [0; 2; -(1); 1; 1#2; 5#2; -(1#2); 3#2]
+  /\ ex_sh_show (compute CRef 3 ex_sh_t)
+     = Some [(0, 0); (-(1), -(1)); (2, 2); (3, 3); (1#2, 1#2); (-(1#2), 7); (5#2, 10); (9, 9)]
+  /\ ex_sh_show (compute CRef 3 ex_sh_t')
+     = Some [(0, 0); (1, 1); (1, 1); (4, 4); (1, 1); (2, 19#2); (2, 19#2); (21#2, 21#2)]
+  /\ ex_sh_show (compute CCached 3 ex_sh_t') = ex_sh_show (compute CRef 3 ex_sh_t').
+Proof.
+  split; [apply tr_shift_rel|]. split; [vm_compute; reflexivity|]. split; [vm_compute; reflexivity|].
+  split; vm_compute; reflexivity.
+Qed.
+
+(* the same tables through sam_apx_1: {0,2} gets the lower bound 21/2 instead of 9 + 5/2, the upper bound 1 instead of
+   -1 + 5/2 (and this computer's "bounds" of the unknown pairs are crossed on both tables) *)
+Example ex_sam_not_shift_covariant :
+  ex_sh_show (compute (CSam 1) 3 ex_sh_t)
+  = Some [(0, 0); (-(1), -(1)); (2, 2); (3, 3); (1#2, 1#2); (9, -(1)); (9, 1#2); (9, 9)]
+  /\ ex_sh_show (compute (CSam 1) 3 ex_sh_t')
+     = Some [(0, 0); (1, 1); (1, 1); (4, 4); (1, 1); (21#2, 1); (21#2, 1); (21#2, 21#2)].
+Proof. split; vm_compute; reflexivity. Qed.
+
+(* normalisation: surplus 15/2, member singleton sums (0; -1; 2; 1; 1/2; -1/2; 5/2; 3/2); the table of the normalised
+   game's knowledge (other stale numbers) gets the normalised bounds, e.g. {0,2}: [-1/2, 7] -> [0, 1] *)
+Definition ex_sh_tn : table := table_of 3 ex_sh_K (nz_normal 3 ex_sh_v) 5.
+Example ex_normalised_bounds :
+  0 < nz_surplus 3 ex_sh_v /\ Qred (nz_surplus 3 ex_sh_v) = 15#2
+  /\ map (fun s => Qred (nz_ssum ex_sh_v 3 s)) (alln 3) = [0; -(1); 2; 1; 1#2; -(1#2); 5#2; 3#2]
+  /\ agrees 3 ex_sh_t ex_sh_K ex_sh_v /\ agrees 3 ex_sh_tn ex_sh_K (nz_normal 3 ex_sh_v)
+  /\ ex_sh_show (compute CRef 3 ex_sh_tn)
+     = Some [(0, 0); (0, 0); (0, 0); (4#15, 4#15); (0, 0); (0, 1); (0, 1); (1, 1)]
+  /\ ex_sh_show (compute CCached 3 ex_sh_tn) = ex_sh_show (compute CRef 3 ex_sh_tn)
+  /\ map (fun gf => match compute CRef 3 ex_sh_t with Some r => ev_gap gf 3 r | None => None end) [GExploit; GL1; GL2; GLinf]
+     = [Some 5; Some 15; Some (225#2); Some (15#2)]
+  /\ map (fun gf => match compute CRef 3 ex_sh_tn with Some r => ev_gap gf 3 r | None => None end) [GExploit; GL1; GL2; GLinf]
+     = [Some (2#3); Some 2; Some 2; Some 1].
+Proof.
+  split; [vm_compute; reflexivity|]. split; [vm_compute; reflexivity|]. split; [vm_compute; reflexivity|].
+  split; [apply agrees_check_sound; vm_compute; reflexivity|].
+  split; [apply agrees_check_sound; vm_compute; reflexivity|].
+  split; [vm_compute; reflexivity|]. split; [vm_compute; reflexivity|]. split; vm_compute; reflexivity.
 Qed.
